@@ -534,39 +534,11 @@ func (d *interfaceDecoder) DecodePath(ctx *RuntimeContext, cursor, depth int64) 
 		return d.sliceDecoder.DecodePath(ctx, cursor, depth)
 	}
 	// a scalar is reached only with a selector still to apply: there is nothing
-	// to select from it; it is read and left out
-	_, cursor, err := d.decodeScalarPath(ctx, cursor, depth)
+	// to select from it; it is stepped over (and checked) without being decoded,
+	// which would unescape a string where it stands
+	cursor, err := skipValue(buf, cursor, depth)
 	if err != nil {
 		return nil, 0, err
 	}
 	return nil, cursor, nil
-}
-
-func (d *interfaceDecoder) decodeScalarPath(ctx *RuntimeContext, cursor, depth int64) ([][]byte, int64, error) {
-	buf := ctx.Buf
-	switch buf[cursor] {
-	case '-', '0', '1', '2', '3', '4', '5', '6', '7', '8', '9':
-		return d.floatDecoder.DecodePath(ctx, cursor, depth)
-	case '"':
-		return d.stringDecoder.DecodePath(ctx, cursor, depth)
-	case 't':
-		if err := validateTrue(buf, cursor); err != nil {
-			return nil, 0, err
-		}
-		cursor += 4
-		return [][]byte{truebytes}, cursor, nil
-	case 'f':
-		if err := validateFalse(buf, cursor); err != nil {
-			return nil, 0, err
-		}
-		cursor += 5
-		return [][]byte{falsebytes}, cursor, nil
-	case 'n':
-		if err := validateNull(buf, cursor); err != nil {
-			return nil, 0, err
-		}
-		cursor += 4
-		return [][]byte{nullbytes}, cursor, nil
-	}
-	return nil, cursor, errors.ErrInvalidBeginningOfValue(buf[cursor], cursor)
 }
